@@ -482,10 +482,11 @@ func (self *Compiler) compileExpr(node ast.AnalyzedExpression) {
 		self.insert(newOneStringInstruction(Opcode_Jump, afterCatchLabel), node.Range)
 
 		// exception case
-		mangledExceptionName := self.mangleVar(node.CatchIdent.Ident())
-		self.insert(newOneStringInstruction(Opcode_Label, exceptionLabel), node.Range)
+		// The catch identifier belongs to the scope of the catch block, not to the enclosing scope.
 		self.pushScope()
 		defer self.popScope()
+		mangledExceptionName := self.mangleVar(node.CatchIdent.Ident())
+		self.insert(newOneStringInstruction(Opcode_Label, exceptionLabel), node.Range)
 		self.insert(newOneStringInstruction(Opcode_SetVarImm, mangledExceptionName), node.Range)
 		self.insert(newPrimitiveInstruction(Opcode_PopTryLabel), node.Range)
 		self.compileBlock(node.CatchBlock, false)
